@@ -495,7 +495,7 @@ impl<'a> Report<'a> {
             known_printed: HashSet::new(),
             replay,
             replay_ran: false,
-            crash_guard: false,
+            crash_guard: std::env::var_os("VERIF_INFLIGHT").is_some(),
         }
     }
 
@@ -681,7 +681,9 @@ impl<'a> Report<'a> {
                 regress_run += 1;
                 let mut info = CaseInfo::default();
                 if let Err(fl) = run_one(&case, &mut info) {
-                    if known_sigs.contains(&fl.signature) {
+                    // a listed (unrepaired) finding met on the way is tolerated, except when it is the very
+                    // failure this file was saved for: then the repaired defect is back
+                    if known_sigs.contains(&fl.signature) && fl.signature != rp.signature {
                         continue;
                     }
                     println!("regression replay {} FAILED: {}", p.display(), fl.signature);
